@@ -111,7 +111,8 @@ Fixpoint print_N_fuel (f : nat) (n : N) : string :=
   match f with
   | O => EmptyString
   | S f' => if (n <? 10)%N then String (digit_char n) EmptyString
-            else (print_N_fuel f' (n / 10) ++ String (digit_char (n mod 10)) EmptyString)%string
+            else let (q, d) := N.div_eucl n 10 in
+                 (print_N_fuel f' q ++ String (digit_char d) EmptyString)%string
   end.
 Definition print_N (n : N) : string := print_N_fuel (S (N.to_nat (N.log2 n))) n.
 Definition print_Z (z : Z) : string :=
@@ -121,7 +122,7 @@ Definition print_Z (z : Z) : string :=
 Fixpoint print_hex (k : nat) (n : N) : string :=
   match k with
   | O => EmptyString
-  | S k' => (print_hex k' (n / 16) ++ String (hexdigit_char (n mod 16)) EmptyString)%string
+  | S k' => (print_hex k' (N.shiftr n 4) ++ String (hexdigit_char (N.land n 15)) EmptyString)%string
   end.
 
 (* ------------------------------------------------------------------------------------------ *)
